@@ -1,12 +1,12 @@
 SPECIFICATION Spec
 CONSTANTS
- NK = 4
- NV = 2
+ NK = 3
+ NV = 1
  MaxLayer = 2
  MaxH = 2
  PushNilRoot = FALSE
- MaxG = 0
+ MaxG = 8
  Swallow = FALSE
  Stepwise = FALSE
-INVARIANTS EntryPrefix EntryDiffExact LinksWithin LinksComplete ReadBound SameNoLoads
+INVARIANTS EntryPrefix EntryDiffExact LinksWithin LinksComplete
 CHECK_DEADLOCK FALSE
